@@ -204,6 +204,9 @@ pub fn replay(case: &Value) -> Option<String> {
     if case["kind"].as_str() == Some("ambiguity") {
         return ambiguity_never_flushed(&fault, &input, &sched);
     }
+    if case["kind"].as_str() == Some("removal") {
+        return removal_invariance(&fault, &input, &sched);
+    }
     check_fault(&Job { base: &base, input: &input, sched: &sched }, &fault)
 }
 
@@ -380,6 +383,76 @@ fn sweep(ctx: &Ctx, name: &str, space: Space, sets: &[(Prepared, bool)], lv: Lev
     });
 }
 
+/// Bail-out while a handler is removing content (the documented exception covers the content being
+/// removed, not what follows it): with handler sets whose invocation order does not depend on
+/// chunking (no text handlers), a failure at handler invocation k must leave the same
+/// `sink ++ unwritten input` under every schedule as under a single write.
+fn removal_invariance(fault: &Cfg, input: &[u8], sched: &Sched) -> Option<String> {
+    let whole = run_cfg(fault, &[input]);
+    let chunks = sched.chunks(input);
+    let rr = run_cfg(fault, &chunks);
+    if let Some(m) = rr.panicked().or(whole.panicked()) {
+        return Some(format!("panic: {m}"));
+    }
+    let rest = |rr: &RunResult, chunks: &[&[u8]]| -> Vec<u8> {
+        let mut v = rr.out.clone();
+        if let Some((i, _)) = rr.first_failure() {
+            for c in chunks.iter().skip(i + 1) {
+                v.extend_from_slice(c);
+            }
+        }
+        v
+    };
+    let (a, b) = (rest(&whole, &[input]), rest(&rr, &chunks));
+    if whole.first_failure().is_some() != rr.first_failure().is_some() {
+        return Some(format!("the injected failure is reached under one schedule only (single write: {:?}, {}: {:?})", whole.first_failure().map(|x| x.1.short()), sched.label(), rr.first_failure().map(|x| x.1.short())));
+    }
+    if a != b {
+        return Some(format!(
+            "graceful bail-out while content is being removed: sink ++ unwritten input is {:?} under {}, but {:?} for a single write (bytes after the removed content are lost or duplicated)",
+            lossy(&b), sched.label(), lossy(&a)
+        ));
+    }
+    None
+}
+
+fn removal_sweep(ctx: &Ctx, name: &str, space: Space, lv: Levels) {
+    let sets: Vec<Vec<HSpec>> = vec![
+        vec![HSpec { log: false, ..HSpec::with_ops(HKind::Element, "a", vec![Op::SetInner("\x01N\x02".into(), true)]) }, HSpec::obs(HKind::Element, "*"), HSpec::obs(HKind::DocComments, "")],
+        vec![HSpec { log: false, ..HSpec::with_ops(HKind::Element, "a", vec![Op::Remove]) }, HSpec::obs(HKind::Element, "*"), HSpec::obs_end_tag("*")],
+        vec![HSpec { log: false, ..HSpec::with_ops(HKind::Element, "a", vec![Op::Replace("\x01R\x02".into(), true), Op::After("\x01A\x02".into(), true)]) }, HSpec::obs(HKind::DocComments, ""), HSpec::obs(HKind::Element, "title")],
+    ];
+    let bases: Vec<Prepared> = sets.into_iter().map(|hs| Prepared::new(Cfg { bail_out_handlers: 2, strict: false, graceful_handler: true, graceful_mem: true, ..Cfg::with(hs) }).unwrap()).collect();
+    sweep_space(ctx, name, space, &|i, raw| {
+        let mut scheds = vec![];
+        schedules(raw.len(), lv, &mut scheds);
+        for base in &bases {
+            let clean = run(base, &[raw], true);
+            ctx.exec(clean.results.len());
+            if !clean.all_ok() {
+                continue;
+            }
+            for k in 1..=clean.handler_calls {
+                let f = base.variant(|c| c.fail_at = Some(k));
+                for s in &scheds {
+                    ctx.exec(s.cuts.len() + 2);
+                    ctx.validated(1);
+                    if let Some(msg) = removal_invariance(&f.cfg, raw, s) {
+                        let case = json!({"base": base.cfg, "fault": f.cfg, "input_hex": hex(raw), "input_lossy": lossy(raw), "sched": s, "kind": "removal"});
+                        let c2 = case.clone();
+                        ctx.violation(msg, case, &|| replay(&c2));
+                    } else {
+                        ctx.nontrivial.insert(digest(&(raw, k, &s.cuts, base.cfg.handlers.len())));
+                    }
+                }
+            }
+        }
+        if i % 5_003 == 19 {
+            ctx.sample(json!({"space": space.label(), "input": lossy(raw), "slice": "removal in progress"}));
+        }
+    });
+}
+
 fn ambiguity_sweep(ctx: &Ctx) {
     let inputs: &[&str] = &["<select><xmp>x", "<frameset><title>y</title>", "a<select><template><style>", "<select><textarea></select><title>"];
     for inp in inputs {
@@ -424,6 +497,7 @@ pub fn run_check(ctx: &Ctx) -> i32 {
         sweep(ctx, "F<=2 x 2 handler sets x L0,L1 x memory limits (every value to len+8, then every failure-moment step)", Space::Frags { k, max: 2 }, &two, l1only, MemSweep::Windows);
         sweep(ctx, "Fcore<=3 x 2 handler sets x L0,LB x every handler index x flags", Space::Frags { k: F_CORE, max: 3 }, &two, l0, MemSweep::None);
         sweep(ctx, "F<=2 x 2 handler sets in windows-1252 with a non-ASCII character inside the bail-out markers x L0,L1 x every handler index + memory limits", Space::Frags { k, max: 2 }, &legacy, l1only, MemSweep::Windows);
+        removal_sweep(ctx, "Fcore<=3 x 3 content-removing handler sets x a failure at every handler invocation x L1,LB: sink ++ unwritten input equals the single-write run's", Space::Frags { k: F_CORE, max: 3 }, l1);
         ambiguity_sweep(ctx);
     } else {
         sweep(ctx, "F<=3 x 6 handler sets x L0,L1,LB x every handler index x flags", Space::Frags { k, max: 3 }, &sets, l1, MemSweep::None);
@@ -432,6 +506,7 @@ pub fn run_check(ctx: &Ctx) -> i32 {
         sweep(ctx, "Fcore<=3 x 6 handler sets x L0,L1,LB x handler index + every memory limit", Space::Frags { k: F_CORE, max: 3 }, &sets, l1, MemSweep::Windows);
         sweep(ctx, "18 contexts x F<=2 x 6 handler sets x L0,L1,LB x handler index + memory limit", Space::CtxFrags { k, max: 2 }, &sets, l1, MemSweep::Windows);
         sweep(ctx, "F<=3 x 2 handler sets in windows-1252 with a non-ASCII character inside the bail-out markers x L0,L1,LB x every handler index + memory limits", Space::Frags { k, max: 3 }, &legacy, l1, MemSweep::Windows);
+        removal_sweep(ctx, "F<=3 x 3 content-removing handler sets x a failure at every handler invocation x L1,L2,LB: sink ++ unwritten input equals the single-write run's", Space::Frags { k, max: 3 }, Levels { l1: true, l2_max_len: 24, bytewise: true, empties: false });
         ambiguity_sweep(ctx);
     }
     ctx.finish(
